@@ -11,15 +11,15 @@ Open Scope list_scope.
 
 (** (1) FULL STATEMENT (all forests): on every strict-valid forest relaxed mode returns the rules of strict mode
     (rule = kind, name, expr, for, labels, annotations with their line extents, error, first/last line).
-    It is FALSE of the faithful model and of pint — see [C19_relaxed_eq_strict_refuted_tag_kind] below — for
-    one pathological class; the partial theorem carries the guard [wf_doc]:
+    It WAS false of the faithful model and of pint for one pathological class (explicit tags contradicting the node
+    kind) until fixes b22de24 + 4a0d172; see the regression theorems below.  The partial theorem carries the guard
+    [wf_doc]:
       - the document node is a document and its roots are not aliases (true of every yaml.v3 forest);
       - alias fields only on alias nodes (true of every yaml.v3 forest);
       - a node tagged !!map / !!seq / !!null that is not a mapping / sequence has no content and no
-        embedded document, i.e. no explicit tag contradicting the node kind.  Since fix b22de24 strict mode itself
-        rejects the !!map / !!seq part of this at every node it visits; what remains of the known finding
-        C19-tag-kind is the !!null tag on a mapping / sequence WITH content (see the refutation below); the
-        guard is kept in its old form (sufficient, no longer minimal).
+        embedded document, i.e. no explicit tag contradicting the node kind.  Since fixes b22de24 + 4a0d172 strict mode itself
+        rejects this at every node it visits (known finding C19-tag-kind closed); the guard is kept in its old
+        form (sufficient, no longer known to be necessary).
     (A second class found by the proof attempt — alias nodes used as mapping keys, read through the anchor
     NAME by strict mode — was repaired in pint by commit 3dfcdb6; the guard clause is gone, the witness
     corpus/C19/alias_key.yaml is now rejected by strict mode, see [C19_alias_key_now_rejected].) *)
@@ -49,8 +49,8 @@ Theorem C19_strict_valid_single_doc :
 Proof. exact strict_valid_single. Qed.
 Print Assumptions C19_strict_valid_single_doc.
 
-(** Refutation of the full statement (witness = corpus/C19/tag_kind_null.yaml as serialised from yaml.v3;
-    it also fails on the real pint binary of HEAD 5b88941). *)
+(** Former refutation witnesses of the full statement (corpus/C19/tag_kind_null.yaml, tag_kind_mismatch.yaml as
+    serialised from yaml.v3). *)
 Definition pl0 (_ : list string) (n : node) (_ : nat) : nat * nat := (n_line n, n_line n).
 Definition yes (_ : string) : bool := true.
 
@@ -86,9 +86,16 @@ Definition refutes (d : node) : Prop :=
   List.length (all_rules (f_groups s)) <> 0 /\
   exists f', parse_relaxed pl0 yes yes yes [] [(d, 0)] None = Some f' /\ all_rules (f_groups f') = [].
 
-Theorem C19_relaxed_eq_strict_refuted_tag_kind : refutes witness_tag_kind.
-Proof. unfold refutes. vm_compute. repeat split; try discriminate. eexists. split; reflexivity. Qed.
-Print Assumptions C19_relaxed_eq_strict_refuted_tag_kind.
+(** The former refutation witness of the full statement is now REJECTED by strict mode (fixes b22de24 + 4a0d172: a
+    mapping or list tagged !!null is judged by its kind): the known finding C19-tag-kind is closed, and no
+    counterexample to [C19_full_statement] is known any more.  The partial theorem keeps its guard (sufficient; the
+    !!map / !!seq / !!null clauses are now enforced by strict mode itself at every node it visits, but the proof has
+    not been reworked to derive them from strict validity). *)
+Theorem C19_null_tag_on_mapping_now_rejected :
+  existsb (fun e => match e with Some _ => true | None => false end)
+          (errors_of (parse_strict pl0 yes yes yes yes (fun _ => true) (fun _ => true) false [] [(witness_tag_kind, 0)] None)) = true.
+Proof. vm_compute. reflexivity. Qed.
+Print Assumptions C19_null_tag_on_mapping_now_rejected.
 
 (** Regression of the part of the tag-kind class repaired by b22de24: strict mode now reports an error for
     `rules: !!seq {? rule : rule}`. *)
